@@ -230,7 +230,7 @@ type GCase struct {
 	Scenario string        `json:"scenario"`
 	Edits    []c02.EditRef `json:"edits"`
 	Indent   string        `json:"indent"`
-	Flavour  string        `json:"flavour,omitempty"` // mysql only: server version the driver is opened against ("" = mysql.DefaultPlan)
+	Flavour  string        `json:"flavour,omitempty"` // server the driver is opened against (MySQL family, PostgreSQL family; "" = the Default planner)
 	// Unnamed: tables that gain a CHECK without a name in the desired schema. Such an addition cannot be undone by name,
 	// so a plan that contains it has a change without reverse statement and must not be reported reversible.
 	Unnamed []string `json:"unnamed,omitempty"`
@@ -290,6 +290,13 @@ func checkDialectDown(c GCase) (DOutcome, error) {
 		scan = func(in string) ([]*migrate.Stmt, error) { return (*mysql.Driver)(nil).ScanStmts(in) }
 	case "postgres":
 		pl = postgres.DefaultPlan
+		if c.Flavour != "" {
+			drv, err := gm.OpenPostgres(c.Flavour)
+			if err != nil {
+				return out, fmt.Errorf("harness: %v", err)
+			}
+			pl = drv
+		}
 		scan = func(in string) ([]*migrate.Stmt, error) { return (*postgres.Driver)(nil).ScanStmts(in) }
 	default:
 		pl = sqlite.DefaultPlan
@@ -331,6 +338,9 @@ func genG(t *rapid.T) GCase {
 	c := GCase{Dialect: d, Scenario: rapid.SampledFrom([]string{"create", "drop", "modify", "modify"}).Draw(t, "scenario"), Indent: rapid.SampledFrom([]string{"", "  ", "\t"}).Draw(t, "indent")}
 	if d == "mysql" {
 		c.Flavour = rapid.SampledFrom([]string{"", "mysql8", "mysql57", "maria", "tidb", "tidb"}).Draw(t, "flavour")
+	}
+	if d == "postgres" {
+		c.Flavour = rapid.SampledFrom([]string{"", "", "pg15", "pg10", "crdb"}).Draw(t, "pgflavour")
 	}
 	if c.Scenario == "modify" && rapid.IntRange(0, 2).Draw(t, "unnamedchecks") == 0 {
 		c.Unnamed = rapid.SliceOfNDistinct(rapid.SampledFrom([]string{"users", "posts", "tags", "logs"}), 1, 2, rapid.ID[string]).Draw(t, "unnamed")
